@@ -18,6 +18,27 @@ CLAIMED = {
         note="Trusted: Coq kernel + vm_compute; hand-written model tied by differential testing (generator-bounded, "
              "tolerance 2e-5 of case scale); Q models f32 (rounding not modelled); runner and Python driver.",
         technique="Coq proof over Qc model (induction over steps/components, lra/nra scalar lemmas) + model/impl correspondence + oracle search"),
+    "C03": dict(
+        text="Machine-checked theorems: k_exp enters the model of energy_performance only through the final combination "
+             "we_of_parts (theorem C03_k_only: the evaluation at k equals the evaluation at any k' with the k field "
+             "replaced), hence flows, derived factors, step A and all partial results are identical for all k; step B is "
+             "the affine function A + k(B(1)-A) per carrier, per service, in total and per m2, B(0) = A, and a building "
+             "with no export gives the same result for every k. Correspondence on all weighted-energy fields at k in "
+             "{0, 1, interior}; the affine law is also evaluated directly on implementation outputs.",
+        design_ref="DESIGN.md §6 C03",
+        note="Trusted: Coq kernel + vm_compute; hand-written model tied by differential testing; Q models f32.",
+        technique="Coq proof (structural factorisation of k_exp, ring on RNC sums) + model/impl correspondence + oracle search"),
+    "C12": dict(
+        text="Machine-checked theorems for every component list: with both electricity sources declared, used_pv = "
+             "f*min(pv,u), used_chp = f*min(chp, u-min(pv,u)), cogenerated electricity is used only when the on-site "
+             "production of the step is fully allocated, allocations never exceed the EPB use; f_match = 1 without load "
+             "matching, equals (x+1/x-1)/(x+1/x) with x = production/use when both are positive and 1 otherwise, lies in "
+             "[1/2,1]; load matching never increases the produced energy used on site nor decreases grid delivery (per "
+             "step and annually). The priority table of ProdSource::get_priorities is pinned by a theorem. "
+             "Correspondence on f_match, per-source production/use vectors, with load matching off and on.",
+        design_ref="DESIGN.md §6 C12",
+        note="Trusted: Coq kernel + vm_compute; hand-written model tied by differential testing; Q models f32.",
+        technique="Coq proof (scalar lemmas by lra/nra/field lifted over steps) + model/impl correspondence + oracle search"),
 }
 
 PENDING_REASON = "not claimed yet in this round: model/theorems for this property are still being built (see DESIGN.md §10 order of work)"
